@@ -145,12 +145,22 @@ func verifC09Total(flat []*Field, a, b []string, i int) {
 // ---------------------------------------------------------------------------
 // The field comparators (C09)
 
-// parseNum is a pure function of its argument (regexp, strconv and math.Pow
-// inside are not modelled): parseNum_0 / parseNum_1 in specifications.
+// prefixExp: the power of 1000 (or 1024) a prefix stands for: K/k is 1, M is 2, …
+//@ pure func prefixExp(p string) int = len(p) > 0 ? 1 + strings.IndexByte(numPrefixes, p[0] == 'k' ? 'K' : p[0]) : 0
+
+// parseNum: a plain float if the text is one; otherwise the number the
+// expression's first group spells, times 1000 or (with a trailing i) 1024 to
+// the power its prefix stands for; otherwise a syntax error.  Callers use it
+// as a function of its argument (parseNum_0 / parseNum_1); what the regular
+// expression matches and strconv's readings are not modelled.
 //@ func parseNum(x string) (v float64, err error)
 //@   props C09
 //@   opt functional
-//@   trusted
+//@   ensures strconv.ParseFloat_1(x, 64) == nil ==> err == nil && bits(v, strconv.ParseFloat_0(x, 64))
+//@   ensures err != nil ==> err == strconv.ErrSyntax
+//@   ensures strconv.ParseFloat_1(x, 64) != nil && err == nil ==> exists subs []string witness subs :: len(subs) == 3 &&
+//@             strconv.ParseFloat_1(subs[1], 64) == nil &&
+//@             bits(v, strconv.ParseFloat_0(subs[1], 64) * math.Pow(strings.HasSuffix(subs[2], "i") ? 1024.0 : 1000.0, float64(prefixExp(subs[2]))))
 
 // numOrder: numbers before non-numbers, numerically, NaN after other numbers.
 //@ pure func numOrder(x float64, xok bool, y float64, yok bool) int =
